@@ -8,7 +8,7 @@ from vlib.core import Case
 PROP = "C12"
 SPEC_MODE = "oracle"
 KEEP_PREFIX = 1
-SIZES = {"quick": 20000, "thorough": 200000}
+SIZES = {"quick": 22000, "thorough": 220000}
 BATCH = 5000
 SEARCH_TRIES = 60
 EXTRA_MODULES = ("Sentinel.Lemmas.BreakerRace",)
@@ -19,7 +19,7 @@ RULE = ("cases = one real breaker (error count / error ratio / slow ratio; timeo
         "threads ALL interleavings (binary strings with exactly maxsteps(t) entries per thread; finished threads are skipped, the rest drained), for the "
         "base configuration in quick and for all configurations in thorough; part 2: the same with a tick of timeout-1/timeout ms inserted and with "
         "two-call threads (sampled); part 3: random 2-3 thread programs (1-3 calls) with random schedules, a fixed slice aimed at each known-finding "
-        "window. non-trivial = the state word changed during the concurrent phase; distinct by (configuration, set-up, sequence of (thread, yield point) steps)")
+        "window. rule reloads (LoadRules with an identical / equal / tuned but stat-reusable rule as one schedule step `rd:`) while calls are under way on the old breaker object: 644 exhaustive cases in quick (11 592 in thorough) + 10 % of the random stream; non-trivial = the state word changed during the concurrent phase; distinct by (configuration, set-up, sequence of (thread, yield point) steps)")
 
 
 def fbits(x):
@@ -36,11 +36,31 @@ CONFIGS = [
     ("er", 7, 2, fbits(0.5), 3, 0, 2, "c:1:ok", "c:1:err"),
 ]
 SETUPS = ["closed", "opened", "almost", "due", "halfopen", "halfopen-late"]
-MAXSTEPS = {"tp": 3, "tpb": 4, "c": 5}
+MAXSTEPS = {"tp": 3, "tpb": 4, "c": 5, "rd": 1}
 
 
 def steps_of(call):
-    return MAXSTEPS["c" if call.startswith("c:") else call]
+    return MAXSTEPS["c" if call.startswith("c:") else "rd" if call.startswith("rd:") else call]
+
+
+def reload_item(c, how):
+    """a rule reload for the resource of configuration c: same strategy and statistic geometry (always stat-reusable);
+    how = same (identical rule: breaker kept) | thr | minreq | timeout | probe | maxrt (equal for ec/er, tuned for sr)"""
+    kind, to, mr, thr, pn, mx = c[:6]
+    if how == "thr":
+        thr = str(int(thr) + 1) if kind == "ec" else fbits(0.75 if thr != fbits(0.75) else 0.25)
+    elif how == "minreq":
+        mr += 1
+    elif how == "timeout":
+        to *= 2
+    elif how == "probe":
+        pn += 1
+    elif how == "maxrt":
+        mx += 1
+    return f"rd:{to}:{mr}:{thr}:{pn}:{mx}"
+
+
+RELOADS = ["same", "thr", "thr", "minreq", "timeout", "probe", "maxrt"]
 
 
 def cfg_line(c):
@@ -106,6 +126,26 @@ def exhaustive(configs):
                         yield case_of(f"x{ci}-{setup}-{a}-{b}-{k}", c, setup, [[a], [b]], s, ("exhaustive",))
 
 
+def exhaustive_reload(configs, setups):
+    """a call that is under way on the old breaker object while another thread reloads the rule and then sends a request"""
+    for ci, c in enumerate(configs):
+        for setup in setups:
+            for a in (c[8], "tp"):
+                for how in ("thr", "same"):
+                    progs = [[a], [reload_item(c, how), "tp"]]
+                    for k, s in enumerate(interleavings([steps_of(a), 1 + 3])):
+                        yield case_of(f"r{ci}-{setup}-{a}-{how}-{k}", c, setup, progs, s, ("exhaustive-reload",))
+
+
+def reload_case(rng, cid, c):
+    """2-3 threads, one or two of them reload the rule somewhere in their program"""
+    progs = [rand_prog(rng, c, 2) for _ in range(rng.choice([2, 3, 3]))]
+    for _ in range(rng.choice([1, 1, 2])):
+        p = rng.choice(progs)
+        p.insert(rng.randint(0, len(p)), reload_item(c, rng.choice(RELOADS)))
+    return case_of(cid, c, rng.choice(SETUPS), progs, rand_sched(rng, progs, c), ("reload",))
+
+
 def rand_sched(rng, progs, c, n_ticks=None):
     total = sum(sum(steps_of(x) for x in p) for p in progs)
     ids = [i for i, p in enumerate(progs) for _ in range(sum(steps_of(x) for x in p))]
@@ -154,6 +194,8 @@ def stream(ctx):
     # part 1: exhaustive two-thread interleavings
     for case in exhaustive(CONFIGS[:1] if quick else CONFIGS):
         yield case
+    for case in exhaustive_reload(CONFIGS[:1] if quick else CONFIGS, ["closed", "halfopen"] if quick else SETUPS):
+        yield case
     i = 0
     while True:
         i += 1
@@ -162,6 +204,8 @@ def stream(ctx):
         r = rng.random()
         if r < 0.12:
             yield known_slice(rng, cid, c)
+        elif r < 0.22:
+            yield reload_case(rng, cid, c)
         elif r < 0.37:   # part 2a: two single-call threads, all-steps schedule with ticks
             a, b = rng.choice(menu(c)), rng.choice(menu(c))
             progs = [[a], [b]]
@@ -236,7 +280,9 @@ def run(ctx):
     def extra(ctx, eng):
         n = 4000 if ctx.tier == "quick" else 40000
         st = stream(ctx)
-        skip = sum(1 for _ in exhaustive(CONFIGS[:1] if ctx.tier == "quick" else CONFIGS))
+        quick = ctx.tier == "quick"
+        skip = (sum(1 for _ in exhaustive(CONFIGS[:1] if quick else CONFIGS))
+                + sum(1 for _ in exhaustive_reload(CONFIGS[:1] if quick else CONFIGS, ["closed", "halfopen"] if quick else SETUPS)))
         cases = list(itertools.islice(st, skip, skip + n))
         text = core.cases_text(cases)
         impl, err = core.run_impl(eng.binary, PROP, text)
@@ -267,7 +313,7 @@ META = {
                    "listeners exactly once, by its winner, with the CAS's expected value as prev (transition_once); with probeNum = 0 a TryPass returns true "
                    "only by reading Closed or by winning Open->HalfOpen, so nothing is admitted while the word is HalfOpen (single_probe). "
                    "no_early_admission is FALSE on the pinned code (early_probe_witness, aba_witness, by decide) and is proved outside the two classified "
-                   "windows (no_early_admission_partial); the order in which different threads' listener calls arrive is not part of the property and not judged (the CAS history is the path; listener_order_partial shows the log equals it when notifications do not overlap with other threads' steps). The model is tied to "
+                   "windows (no_early_admission_partial); the order in which different threads' listener calls arrive is not part of the property and not judged (the CAS history is the path; listener_order_partial shows the log equals it when notifications do not overlap with other threads' steps). After a rule reload every breaker object (live or retired) is such a breaker and a call bound to one object never touches the words of another (reload_objects_are_breakers, world_step_frame). The model is tied to "
                    "core/circuitbreaker by running every schedule on the real breaker under the deterministic yield-hook scheduler and comparing, after "
                    "every step, yield points, state word, deadline, probe counter, listener calls and TryPass results; the same trace is judged by the oracle."),
     "level_note": ("Trusted: Lean kernel; axioms propext/Classical.choice/Quot.sound; the yield-hook scheduler (go/internal/sched) and the placement of the cb.* "
